@@ -34,7 +34,7 @@ EXT_KEY = "external_safe_paths"
 EXT_FINDING = "AbstractPathModelDAG:extends-caller-list:external_safe_paths"
 CLASS_OPTIONS = ["use_subgraph_scanning_lowerbound", "use_min_gen_set_lowerbound", "optimize_with_guessed_weights",
                  "optimize_with_safe_sequences_fix_via_bounds"]      # valid non-default options of MinFlowDecomp(Cycles) / the walk models
-KEYCODE = {"use_subgraph_scanning_lowerbound": 102, "use_min_gen_set_lowerbound": 103, "optimize_with_guessed_weights": 104,
+KEYCODE = {"given_weights": 106, "use_subgraph_scanning_lowerbound": 102, "use_min_gen_set_lowerbound": 103, "optimize_with_guessed_weights": 104,
            "optimize_with_safe_sequences_fix_via_bounds": 105, "external_safe_paths": 101, "trusted_edges_for_safety": 0, "allow_empty_paths": 1, "optimize_with_safe_paths": 2, "optimize_with_safe_sequences": 3,
            "optimize_with_safe_zero_edges": 4, "optimize_with_subpath_constraints_as_safe_sequences": 5,
            "optimize_with_safety_as_subpath_constraints": 6, "verif_user_key": 100}
@@ -124,7 +124,20 @@ class Shared:
             self.scal[kind] = {"edge": dict(([(ze, 0)] if ze else []) + [(es[-1], rng.choice([0.5, 1]))]),
                                "node": dict(([(zn, 0)] if zn else []) + [(ns[-1], rng.choice([0.5, 1]))])}
             self.starts[kind] = [ns[rng.randrange(len(ns))]]; self.ends[kind] = [ns[rng.randrange(len(ns))]]
+        # the given weights: ONE caller-owned list per graph, unsorted, with repeats, shared by all models of the history
+        self.sup = {}
+        rw = {"dag": list(sd.get("route_weights", [1])), "cyc": list(sc.get("route_weights", [1])), "dag2": [w]}
+        for kind in KINDS:
+            vals = rw[kind] + [rng.choice(rw[kind])] + [d["flow"] for _, _, d in list(self.G[kind].edges(data=True))[:2]] + [1]
+            rng.shuffle(vals)
+            if vals == sorted(vals) or vals == sorted(vals, reverse=True):
+                vals = vals[1:] + vals[:1] if len(set(vals)) > 1 else vals
+            self.sup[kind] = vals
         self.opts = {"verif_user_key": 1} if rng.random() < 0.75 else {}
+        if rng.random() < 0.25:
+            # given_weights (kFlowDecompCycles): a caller-owned list INSIDE the options dict; it excludes the safe-sequence optimisation
+            self.opts["given_weights"] = [rng.choice(rw["cyc"])]
+            self.opts["optimize_with_safe_sequences"] = False
         # option VALUES owned by the caller: a list of safe paths (edge lists of the DAG; single non-ignored edges of a flow
         # decomposition are safe), and the switch that turns safe lists into constraints
         if rng.random() < 0.45:
@@ -143,7 +156,7 @@ class Shared:
         self.subsets = [sorted(rng.sample(self.universe, rng.randint(1, 3))) for _ in range(4)] + [list(self.universe)]
         self.subset_weights = [rng.randint(1, 4) for _ in self.subsets]
 
-    ARGS = ("cons", "ign", "scal", "starts", "ends", "opts", "sopts", "numbers", "universe", "subsets", "subset_weights")
+    ARGS = ("cons", "ign", "scal", "starts", "ends", "sup", "opts", "sopts", "numbers", "universe", "subsets", "subset_weights")
 
     def snapshot(self, with_globals=True):
         s = {"G": {k: graph_snapshot(g) for k, g in self.G.items()}}
@@ -171,7 +184,7 @@ def make_op(rng):
     cls = rng.choice(GRAPH_MODELS + GRAPH_MODELS + OTHER)
     op = {"cls": cls, "pass_opts": rng.random() < 0.7, "pass_sopts": rng.random() < 0.8, "pass_cons": rng.random() < 0.6,
           "pass_ign": rng.random() < 0.4, "pass_scal": rng.random() < 0.6, "pass_starts": rng.random() < 0.3,
-          "node": rng.random() < 0.3, "sup": cls in ("kLeastAbsErrors", "kMinPathError") and rng.random() < 0.3,
+          "node": rng.random() < 0.3, "sup": cls in ("kFlowDecomp", "kLeastAbsErrors", "kMinPathError") and rng.random() < 0.45,
           "solve": rng.random() < 0.8, "lb_only": rng.random() < 0.5, "narrow": rng.random() < 0.3,
           "inner": rng.choice(["kMinPathError", "kLeastAbsErrors"])}
     if cls == "MinErrorFlow":
@@ -219,7 +232,7 @@ def kwargs_for(op, sh):
     if op["pass_starts"] and gcls in HAS_STARTS_EDGE and not (gcls == "MinErrorFlow" and kind == "cyc"):
         kw["additional_starts"] = sh.starts[kind]; kw["additional_ends"] = sh.ends[kind]
     if op["sup"]:
-        kw["solution_weights_superset"] = sorted({d["flow"] for _, _, d in sh.G[kind].edges(data=True)} | {1})
+        kw["solution_weights_superset"] = sh.sup[kind]          # the shared list itself
     if cls == "NumPathsOptimization":
         kw.update({"model_type": getattr(fp, gcls), "stop_on_first_feasible": True, "min_num_paths": 1, "max_num_paths": 3})
     return kw
@@ -237,6 +250,30 @@ def canon(x):
     if isinstance(x, float):
         return round(x, 6)
     return x
+
+
+LAST_MODEL = [None]
+
+
+def read_getters(m):
+    """what the getters of an already solved model say now"""
+    out = {"solved": bool(m.is_solved()), "objective": None, "solution": None}
+    if out["solved"]:
+        out["solution"] = canon(copy.deepcopy(m.get_solution()))
+        if hasattr(m, "get_objective_value"):
+            out["objective"] = canon(m.get_objective_value())
+    return out
+
+
+def build_twin(op, kw):
+    """the same construction once more, solved, but its getters are NOT called yet (they are read after later steps)"""
+    import flowpaths as fp
+    try:
+        m = getattr(fp, op["cls"])(**kw)
+        m.solve()
+        return m
+    except Exception:
+        return None
 
 
 def run_op(op, kw):
@@ -271,6 +308,7 @@ def run_op(op, kw):
                 u2 = canon(copy.deepcopy(m.get_solution(**{par[0]: False}))); d2 = canon(copy.deepcopy(m.get_solution()))
                 drop = lambda d_: {k_: v_ for k_, v_ in d_.items() if not str(k_).startswith("_")}
                 getter_ok &= drop(u1) == drop(u2) and drop(d2) == drop(sols[0])
+        LAST_MODEL[0] = m
         return res, getter_ok, None
     except Exception as e:
         return res, True, ci.exc_kind(e) + ": " + str(e)[:100]
@@ -316,15 +354,26 @@ def run(ctx):
             if rng.random() < 0.6:
                 ops[-2]["cls"] = rng.choice(ci.CYC_CLASSES); ops[-2]["sup"] = False
                 ops[-1]["cls"] = rng.choice([c for c in ci.CYC_CLASSES if c not in ("MinFlowDecompCycles",)]); ops[-1]["sup"] = False
+        if rng.random() < 0.3 and len(ops) >= 3:   # two given-weights models on the same graph, sharing the weights list
+            for o, c in ((ops[0], rng.choice(["kMinPathError", "kFlowDecomp", "kLeastAbsErrors"])), (ops[1], rng.choice(["kLeastAbsErrors", "kMinPathError"]))):
+                o.update({"cls": c, "sup": True, "solve": True, "narrow": False, "node": False})
         for o in ops:
             if o["cls"] == "MinSetCover":
                 o["solve"] = True                # its is_solved() raises before solve() by design
         init = sh.snapshot()
         steps = []
         before = init
+        earlier = []                             # (step, class, model object, what its getters said at its step, is_twin)
         for op in ops:
             kw = kwargs_for(op, sh)
+            LAST_MODEL[0] = None
             res, getter_ok, exc = run_op(op, kw)
+            if exc is None and op["solve"] and LAST_MODEL[0] is not None:
+                earlier.append((len(steps), op["cls"], LAST_MODEL[0], res, False))
+                if op["sup"] or rng.random() < 0.3:  # a twin whose getters are first read after the later steps
+                    tw = build_twin(op, kw)
+                    if tw is not None:
+                        earlier.append((len(steps), op["cls"], tw, res, True))
             after = sh.snapshot()
             ext_grew = len(after["opts"].get(EXT_KEY, [])) != len(before["opts"].get(EXT_KEY, []))
             only_ext = ext_grew and {k: v for k, v in after["opts"].items() if k != EXT_KEY} == {k: v for k, v in before["opts"].items() if k != EXT_KEY} \
@@ -332,6 +381,17 @@ def run(ctx):
             steps.append({"op": op, "changed": diff_snap(before, after), "opts_keys": list(sh.opts.keys()), "result": res, "ext_grew": ext_grew, "only_ext": only_ext,
                           "getter_ok": getter_ok, "exc": exc, "has_cons": bool(kw.get("subpath_constraints") or kw.get("subset_constraints"))})
             before = after
+        # the getters of EARLIER models, read again (for twins: read for the first time) after all later steps
+        late = []
+        for (j, cls_j, m_j, res_j, twin) in earlier:
+            if j == len(steps) - 1 and not twin:
+                continue
+            try:
+                now = read_getters(m_j)
+            except Exception as e:
+                now = {"exception": ci.exc_kind(e) + ": " + str(e)[:80]}
+            if now != res_j:
+                late.append({"step": j, "class": cls_j, "twin": twin, "then": res_j, "now": now})
         # the last construction again, with fresh argument objects holding the INITIAL values
         fresh = Shared.fresh_from(sh, init)
         res_fresh, _, exc_fresh = run_op(ops[-1], kwargs_for(ops[-1], fresh))
@@ -341,9 +401,9 @@ def run(ctx):
             cid, passes = model_cls_id(s["op"])
             mops.append([cid, passes, s["op"]["sup"], s["has_cons"], s["op"]["solve"]])
         reqs.append("effects " + common.toks(ext_open, EXT_KEY in init["opts"], len(init_keys), init_keys, len(ops), mops))
-        hists.append((i, ops, init, steps, res_fresh, exc_fresh)); hist_sh[i] = sh
+        hists.append((i, ops, init, steps, res_fresh, exc_fresh, late)); hist_sh[i] = sh
     outs = ctx.model.run(reqs)
-    for (i, ops, init, steps, res_fresh, exc_fresh), req, out in zip(hists, reqs, outs):
+    for (i, ops, init, steps, res_fresh, exc_fresh, late), req, out in zip(hists, reqs, outs):
         classes = [o["cls"] for o in ops]
         ctx.case([req, json.dumps(ops, sort_keys=True)], nontrivial=len(set(classes)) >= 2,
                  sample={"ops": ops, "initial_options": canon(init["opts"]), "options_keys_after_each_step": [s["opts_keys"] for s in steps]})
@@ -385,6 +445,12 @@ def run(ctx):
                 ctx.count("E4_histories", "heap_disagreements")
                 ctx.report("E4 correspondence broken: optimization_options keys after step %d are %s (external_safe_paths extended: %s), Effects.run_sw gives %s (extended: %s)" % (j, obs, s["ext_grew"], model_keys[j], model_grew),
                            dict(replay, step=j), concrete=False)
+        # (2b) the getters of earlier models after later models were built and solved
+        ctx.count("earlier_model_getters", "histories"); ctx.count("earlier_model_getters", "changed", len(late))
+        for l in late:
+            ctx.report("the getters of an earlier model (%s, step %d%s) changed after later models were built: %s -> %s"
+                       % (l["class"], l["step"], ", getters first read late" if l["twin"] else "", json.dumps(l["then"], default=str)[:200], json.dumps(l["now"], default=str)[:200]),
+                       dict(replay, step=l["step"]), key=("history:result-differs:external_safe_paths-extended" if polluted_ext else None), concrete=True)
         # (3) history independence of the last model
         last = steps[-1]
         ctx.count("history_independence", "cases")
